@@ -63,6 +63,9 @@ def generate(seed, tier):
         depth=swarm.pick([1, 2, 3]),
     )
     world = gen_world(rng, prof)
+    if swarm.chance(.35):
+        from ..world import add_satellite_name_chain
+        add_satellite_name_chain(Rng(seed, 'satname'), world)
     srng = Rng(seed, 'sched')
     scheds = []
     n_items = len(world['cells']) + len(world['names'])
